@@ -1,6 +1,6 @@
 """Property -> clauses -> rule instances.  Each check_Cxx fills a Report; it never prints."""
 from .model import AnalysisError
-from .rules import twin, effect, work, feedback, models, misc, state, fresh, pda_rules, build, dispatch, io as iorules, closed
+from .rules import twin, effect, work, feedback, models, misc, state, fresh, pda_rules, build, dispatch, io as iorules, closed, ka_rules
 
 ALG = ['dfa_algorithms', 'nfa_algorithms', 'pda_algorithms', 'tm_algorithms', 'cfg_algorithms', 'regexp_algorithms']
 
@@ -118,10 +118,34 @@ def _eps_in(ctx, rep, specs):
     return n
 
 
+def check_C05(ctx, rep):
+    rep.clauses_decided += ['every rewrite path of regexp_simplify is a Kleene-algebra identity, never grows the expression and is applied after simplifying every child (M3, decided exactly)',
+                            'matcher: concatenation splits k in [0,|w|], star takes a non-empty prefix and recurses on the same node, base cases, sum (M3m)',
+                            'all six constructors handled in every structural recursion over Regexp (R-DISPATCH a)',
+                            'no cross-call memo feeds the matcher or the simplifier (R-STATE c); operands untouched (R-EFFECT)']
+    rep.not_decided += ['that the recursive matcher equals the denotation beyond those facts']
+    P = ctx.prog.func
+    if ka_rules.check_simplify(ctx, rep, P('regexp_algorithms.regexp_simplify')) < 12:
+        raise AnalysisError('fewer than 12 rewrite paths extracted from regexp_simplify')
+    ka_rules.check_simplify_spec(ctx, rep, P('regexp_algorithms.regexp_simplify'))
+    ka_rules.check_matcher(ctx, rep, P('regexp_algorithms.regexp_accepts_word'))
+    recs = dispatch.regexp_recursions(ctx)
+    if len(recs) < 9:
+        raise AnalysisError('fewer than 9 structural recursions over Regexp found')
+    for f, st in recs:
+        dispatch.check_regexp_recursion(ctx, rep, f, st)
+    twin.check_no_unconditional_self_call(ctx, rep, [f for f, _ in recs])
+    state.check_hidden_state(ctx, rep, modules=['regexp_algorithms', 'regexp'])
+    _effect_on(ctx, rep, ['regexp_algorithms.regexp_simplify', 'regexp_algorithms.regexp_accepts_word', 'regexp_algorithms.regexp_size', 'regexp_algorithms.regexp_symbols'], shared=False)
+
+
 def check_C06(ctx, rep):
     rep.clauses_decided += ['state names of one translation come from one private generator or a fresh-name provider (R-FRESH)',
                             'GNFA start/accept states are fresh (R-FRESH)', 'epsilon consistency of the building blocks (R-EPS)',
-                            'building blocks do not touch their operands (R-EFFECT)']
+                            'building blocks do not touch their operands (R-EFFECT)',
+                            'Iteration/Sum/Concat are translated with star/union/concatenation on the matching children with the private generator passed on (R-DISPATCH a)',
+                            'rip step is Kleene-algebra equivalent to R1.R2*.R3 + R4 with the right index roles; parallel DFA edges are summed (M4)',
+                            'the simplifier applied to every rip result preserves the language (M3)']
     rep.not_decided += ['language equality for all expressions and all elimination orders']
     n = _fresh_in(ctx, rep, ['regexp_algorithms.dfa_to_gnfa', 'nfa_algorithms.nfa_union', 'nfa_algorithms.nfa_repetition', 'nfa_algorithms.nfa_concatenation',
                              'regexp_algorithms.RegexpToNFAGenerator.generate_symbol', 'regexp_algorithms.RegexpToNFAGenerator.generate_zero',
@@ -134,6 +158,11 @@ def check_C06(ctx, rep):
                        'regexp_algorithms.RegexpToNFAGenerator.generate_one'])
     fresh.check_eps_translation(ctx, rep, ctx.prog.func('nfa_algorithms._add_nfa_transitions'))
     dispatch.check_generator_mapping(ctx, rep, ctx.prog.func('regexp_algorithms.RegexpToNFAGenerator.generate'))
+    ka_rules.check_rip_step(ctx, rep, ctx.prog.func('regexp_algorithms.gnfa_minimize'))
+    ka_rules.check_gnfa_edges(ctx, rep, ctx.prog.func('regexp_algorithms.dfa_to_gnfa'))
+    if ka_rules.check_simplify(ctx, rep, ctx.prog.func('regexp_algorithms.regexp_simplify')) < 12:
+        raise AnalysisError('fewer than 12 rewrite paths extracted from regexp_simplify')
+    state.check_hidden_state(ctx, rep, modules=['regexp_algorithms', 'nfa_algorithms'])
     for f, st in dispatch.regexp_recursions(ctx):
         if f.name in ('generate', 'regexp_simplify'):
             dispatch.check_regexp_recursion(ctx, rep, f, st)
@@ -421,6 +450,6 @@ def check_C20(ctx, rep):
 
 
 REGISTRY = {
-    'C01': check_C01, 'C03': check_C03, 'C04': check_C04, 'C06': check_C06, 'C08': check_C08, 'C09': check_C09, 'C10': check_C10,
+    'C01': check_C01, 'C03': check_C03, 'C04': check_C04, 'C05': check_C05, 'C06': check_C06, 'C08': check_C08, 'C09': check_C09, 'C10': check_C10,
     'C11': check_C11, 'C12': check_C12, 'C13': check_C13, 'C16': check_C16, 'C17': check_C17, 'C14': check_C14, 'C15': check_C15, 'C18': check_C18, 'C19': check_C19, 'C20': check_C20,
 }
